@@ -15,6 +15,7 @@ from the specialised one AND (where there is a Python-level value) from the Pyth
 that agree with each other but not with Python are a front-end matter (C01), counted, not flagged.
 """
 import ast
+import os
 import re
 
 import progs
@@ -85,7 +86,7 @@ def gen_g(r, name):
     """(src, params [(name, type)], args [(name, type)], ret, template, defs)"""
     t = wchoice(r, [("mix", 5), ("loop_sum", 1), ("bool_list", 1.2), ("lookup", 1), ("tuple", 1), ("const_index", 0.5), ("range", 0.4), ("with_def", 1.5), ("ifstmt", 1), ("list_tuples", 0.5),
                     ("builtins", 1.5), ("two_lists", 0.8), ("inner_def", 1.2), ("minmax", 0.6),
-                    ("unpack", 0.8), ("enum_loop", 0.8), ("forward", 0.8), ("double_index", 0.6), ("augassign", 0.6)])
+                    ("unpack", 0.8), ("enum_loop", 0.8), ("forward", 0.8), ("double_index", 0.6), ("augassign", 0.6), ("multi_assign", 1.0)])
     defs = []
     if t == "mix":
         # 1-4 parameters interleaved anywhere in the signature with 1-3 real arguments
@@ -157,6 +158,23 @@ def gen_g(r, name):
         use = "k" if pt == "bool" else f"(k == {r.randrange(4)})"
         src = (f"def {name}(a: bool, k: Parameter[{pt}], b: bool) -> bool:\n    def {fn}(x: bool, y: bool) -> bool:\n        return (not x) ^ y\n"
                f"    return {fn}(a, b) ^ {use}\n")
+    elif t == "multi_assign":
+        # simultaneous assignment whose right-hand sides read the targets, in a loop over a list parameter or not
+        form = r.randrange(4)
+        if form == 0:
+            params, args, ret = [("k", "Qint[2]")], [("x", "Qint[2]"), ("y", "Qint[2]")], "Qint[2]"
+            src = f"def {name}(x: Qint[2], k: Parameter[Qint[2]], y: Qint[2]) -> Qint[2]:\n    x, y = x ^ k, y ^ x\n    return y\n"
+        elif form == 1:
+            params, args, ret = [("k", "bool")], [("a", "bool"), ("b", "bool")], "bool"
+            src = f"def {name}(a: bool, b: bool, k: Parameter[bool]) -> bool:\n    a, b = b, a ^ k\n    return a and not b\n"
+        elif form == 2:
+            n = r.randint(2, 3)
+            params, args, ret = [("ks", f"Qlist[Qint[2], {n}]")], [("x", "Qint[2]"), ("y", "Qint[2]")], "Qint[2]"
+            src = (f"def {name}(ks: Parameter[Qlist[Qint[2], {n}]], x: Qint[2], y: Qint[2]) -> Qint[2]:\n    for k in ks:\n"
+                   f"        x, y = x ^ k, y ^ x\n    return x ^ y\n")
+        else:
+            params, args, ret = [("k", "bool"), ("m", "bool")], [("a", "bool"), ("b", "bool")], "bool"
+            src = f"def {name}(k: Parameter[bool], a: bool, b: bool, m: Parameter[bool]) -> bool:\n    a, b, c = a ^ k, b ^ a, a and m\n    return (a ^ b) or c\n"
     elif t == "unpack":
         params, args, ret = [("p", "Tuple[bool, bool]")], [("a", "bool")], "bool"
         src = f"def {name}(p: Parameter[Tuple[bool, bool]], a: bool) -> bool:\n    x, y = p\n    return (x and a) ^ y\n"
@@ -870,8 +888,26 @@ def run_segment(plan, ctx, detail=False, table=None):
                                 probe("declared_type_dropped_(known_finding_class)")
                             else:
                                 violation = viol("B1", op, ["bound function differs from the Python value; the same program with the parameters kept as typed arguments agrees with it, and no parameter value is narrower than its declared type"], at=rec.get("b1_at"), values=a["values"], order=a["order"])
+                        elif agree is True:
+                            # the typed-argument form gives the same (wrong) rows: the front end mistranslates
+                            # this program with or without binding. The statement of C08 is violated all the
+                            # same -- the bound function does not agree with the Python function -- and on the
+                            # unchanged tree the generated family never gets here (its constants fit their widths)
+                            violation = viol("B1", op, ["bound function differs from the Python value, and so does the same program with the parameters kept as typed arguments (front end wrong with or without binding)"], at=rec.get("b1_at"), values=a["values"], order=a["order"])
+                        elif narrower_than_declared(ua["params"], a["values"]):
+                            # the typed-argument form is too large to tabulate; a Qint value narrower than declared
+                            # is involved: the known finding's situation, reported under its class
+                            v = viol("B1", op, ["bound function differs from the Python value although the same program with the parameter kept as an argument of its declared type agrees with it"], at=rec.get("b1_at"), values=a["values"])
+                            v["role"] = "declared-type-dropped"
+                            v["undiagnosed"] = True
+                            soft.append(v)
+                            probe("declared_type_dropped_probable_(typed_form_too_large)")
                         else:
+                            violation = viol("B1", op, ["bound function differs from the Python value (typed-argument form too large to arbitrate, no parameter value narrower than its declared type)"], at=rec.get("b1_at"), values=a["values"], order=a["order"])
                             probe("frontend_disagrees_with_python_with_or_without_binding_(C01_matter)")
+                            if os.environ.get("VERIF_DEBUG_FE"):
+                                with open(os.environ["VERIF_DEBUG_FE"], "a") as _f:
+                                    _f.write(canon({"src": ua["src"], "values": a["values"], "at": rec.get("b1_at"), "agree": agree, "tmpl": ua["tmpl"]}) + "\n")
             # ---- B3: the unbound objects and their callees are what they were
             if violation is None:
                 for j, o in objs.items():
